@@ -176,7 +176,7 @@ q["require_probes"] = t["require_probes"] = ["legit_continuations_ok", "share_ow
 plan("C16", "exploration",
      "the table caller identity {a peer, a configured peer that is not a participant of the generation, an ordinary client with all permissions, empty name, unknown name, a peer's name in upper case, a peer's name with a suffix} x message "
      "{prepare, execute, contribute (with a contribution that would verify), commit, abort} x session state at the receiving instance {none, prepared, executed, committed, aborted, "
-     "expired (fake clock)} is enumerated completely (210 cases) through the real receiver handlers of a 4-instance cluster (3 participants), a 50-case credential x message table goes over real gRPC/TLS (TLS edge); the remaining runs are seeded fault-free generations with "
+     "expired (fake clock)} is enumerated completely (360 cases; callers also: a peer name as host of a longer domain name, with a trailing dot, a prefix of it, with a port, with a leading space) through the real receiver handlers of a 4-instance cluster (3 participants), a 50-case credential x message table goes over real gRPC/TLS (TLS edge); the remaining runs are seeded fault-free generations with "
      "drawn (n,t) and id sets. distinct = distinct table case or (n,t,id-class); non-trivial = all. Oracle: a non-peer gets an error and no share, and the legitimate protocol run "
      "continues from that state to a committed account on every participant; every contribution the transport carries (request and reply) has share = originator's vector evaluated "
      "at the recipient's id and at no other participant's id.",
